@@ -1003,7 +1003,7 @@ main(int argc, char **argv)
 			snprintf(nm, sizeof(nm), "%s-%s", s3n[i], S3P[pr].name);
 			// (two deviations in both tiers: the third level is explored
 			// on the pair0 path above, 12 x that does not fit the tier)
-			explore(strdup(nm), run_s3, &s3x[n3x], 1, 1, 2, 2);
+			explore(strdup(nm), run_s3, &s3x[n3x], 1, 1, 1, T ? 2 : 1);
 			n3x++;
 		}
 	static s6arg s6[] = { { 0 }, { 1 }, { 2 }, { 3 } };
